@@ -15,6 +15,10 @@ CLAIMED = {
             'Symbolic fault position: the cut length of the image and the index/size of the failing or short write are solver variables, so each feasible path is one class of fault positions and all classes are explored for the sample images; obligations: Err and no panic on every prefix, complete image under short writes, has_error() after a failed write.',
             'Trusted: mirsym and its byte source/sink models (sink faults come from a Rust Write impl in the harness crate, interpreted like all other code). Outside: corrupted images, larger models.',
             'DESIGN.md §4 C18'),
+    'C19': ('model_checking', 'symbolic execution of rustc MIR (mirsym) + z3 over symbolic Unicode chars; Kani/CBMC cross-check on a smaller bound (thorough tier)',
+            'Bounded symbolic model checking of the real Transition::nameMatch against a token-prefix oracle: all descriptor/name strings up to the stated lengths over every Unicode scalar value (one path per UTF-8 width pattern, z3 discharges the equivalence for all chars of that pattern); thorough tier re-decides a smaller bound bit-precisely with Kani.',
+            'Trusted: mirsym string models (starts_with/len/as_bytes on symbolic chars), validated against native runs and (thorough) Kani; the oracle in harness/src/h_match.rs. Outside: longer strings, reader-side normalisation.',
+            'DESIGN.md §4 C19'),
 }
 NA_REASON = {}
 
